@@ -312,7 +312,7 @@ def orderedLoop (F : α → α) (x : α) (diffOf : Int → α) :
 /-- `ordered_likelihood(x, labels, tau, cdf)`: the returned dict (insertion order), with the
 `diff` parameter of a label looked up by label (the Beta's name contains the label).
 Fewer than two discrete values are refused: this is the *repaired* behaviour (known finding
-F20: the code as it stands raises `IndexError` on `[]` and returns `{v: F(x - tau)}` on `[v]`,
+F-C05-2: the code as it stands raises `IndexError` on `[]` and returns `{v: F(x - tau)}` on `[v]`,
 the last term overwriting the first). -/
 def orderedLikelihood (F : α → α) (x tau : α) (diffOf : Int → α) (labels : List Int) :
     Except String (List (Int × α)) :=
